@@ -325,6 +325,11 @@ def run(ctx: Ctx):
                 break
     closed_connections_are_removed(ctx, "C18-R4b")
     from . import c14
+    ctx.include(c14.run, {"C14-R1"}, "C18-R1d",
+                "the connection thread, which performs every close and the whole DPR exchange of "
+                "stop(), cannot be ended by a fault of the fault model (transport errors incl. "
+                "accept(), user callbacks)", floor=7,
+                constructs=lambda c: "_handle_connections" in c)
     ctx.include(c14.run, {"C14-R4"}, "C18-R1c",
                 "stop() and the functions it calls iterate snapshots of the tables that other "
                 "threads resize meanwhile (an exception there leaves the remaining applications "
